@@ -5,7 +5,7 @@ import ast
 import re
 
 from ..pyfacts import AnalysisError, src, parent
-from ..genfacts import GenFacts, GEN, STDLIB
+from ..genfacts import new_codegen, GenFacts, GEN, STDLIB
 from ..asmtext import AsmText, parse_offset
 from ..report import Remap
 
@@ -161,7 +161,7 @@ def run(repo, chk):
         CGi = gf.module_ns()['CodeGen']
         runs = []
         for _ in range(2):
-            g = object.__new__(CGi)
+            g = new_codegen(CGi)
             g.numbered_labels = {}
             runs.append([g.add_label(p).label_name for p in ('x', 'loop', 'x', 'x', 'loop', 'y')])
         ok = runs[0] == runs[1] == ['x_0', 'loop_0', 'x_1', 'x_2', 'loop_1', 'y_0']
@@ -211,6 +211,8 @@ def run(repo, chk):
     def tracker_only(construct):
         return 'C18.D5' if construct.startswith('Tracker') else None
     c04._tracker(repo, Remap(chk, {'C04.A1': tracker_only}))
+    # ... and every slot reservation reports the frame size it has just reached (not the one before it)
+    c04._reserve_slots(repo, Remap(chk, {'C04.A1': 'C18.D5'}), gf)
     for cls, mnem in (('Hgeu', 'hgeu'), ('Hleu', 'hleu'), ('Hltu', 'hltu'), ('Hgtu', 'hgtu')):
         chk.expect(gf.asm_code.get(cls) == mnem, 'C18.D2', f'asm.{cls}.code', f'{gf.asm_code.get(cls)!r}: stack guards must be emitted as '
                    'unsigned comparisons, otherwise a run that fits a stack of S words fails at a larger S', 'hidc/codegen/asm.py')
